@@ -9,14 +9,13 @@ open OnosVerif.Path
 
 /-- the plugin a target's operations are checked against: the entity must exist and carry the
     Configurable aspect; the model is the one named by the request's overrides extension for
-    that target, else the aspect's; a plugin must be registered for it. -/
+    that target (an entry without value counts as absent), else the aspect's; a plugin must be registered for it. -/
 def pluginFor (env : Env) (ov0 : OvMap) (t : Str) : Option Plugin :=
   match mapGet t env.topo with
   | some (some cfg) =>
     match mapGet t ov0 with
     | some (some ttv) => pluginGet (ttv.type, ttv.version) env.plugins
-    | some none => none
-    | none => pluginGet (cfg.type, cfg.version) env.plugins
+    | _ => pluginGet (cfg.type, cfg.version) env.plugins
   | _ => none
 
 /-- the operation passes its own checks against plugin `pl` -/
